@@ -59,6 +59,7 @@ class Ctx:
         self.n = 0
         self.axioms = []      # lazily instantiated axioms about UF atoms (z3 bools)
         self.assumed_keep = []
+        self.str_keep = []
         self.assumed_ids = {}     # ast id of a condition that literally is a recorded assumption -> its value
         self.sqrt_args = {}       # z3 id of a sqrt atom -> its argument R
         self.on_shadow = True     # every decision so far agreed with the float shadow point
